@@ -34,6 +34,12 @@ var Metas = map[string]Meta{
 		Technique: "symbolic execution of go/ssa with a reflect model + SMT (QF_BV); native replay",
 		Design:    "DESIGN.md §4 C11",
 	},
+	"C13": {
+		Text:      "The deterministic choice functions that keep a process pair's traffic on one path are executed symbolically from the real code: SendPID/send pick the pooled link from from.ID (64-bit symbolic) and the pool length (1..8, optionally grown between two sends); serve/read pick the receive queue from the order byte the sender derived from to.ID. The solver decides for every pair of ids whether two consecutive messages share link, order byte and queue and stay in arrival order. Two recorded findings (ids that are multiples of 255; pool growth between sends) are excluded by their exact predicate and reproduced natively on every run.",
+		Note:      bmcNote + " The claim is about link/queue selection and queue order; real TCP delays and the one-worker-per-queue lock protocol under concurrency are outside (the latter is covered when a concurrency entry is present in the evidence).",
+		Technique: "symbolic execution of go/ssa + SMT (QF_BV, 64-bit urem by constant); native replay",
+		Design:    "DESIGN.md §4 C13",
+	},
 	"C14": {
 		Text:      "Two local consumers build every set of <=4 links/monitors on pid/name/alias/event/node targets living on two remote nodes through the real process API (connections are fakes), remote consumers hold links on a local process; then the real RouteNodeDown with the real defaultTargetManager.CleanupNode runs symbolically: exactly one exit/down with ErrNoConnection per relation on the lost node, relations on the other node untouched, relations of the lost node's processes removed, a repeated node-down notifies nobody. (Incarnation checks and frame-level termination are added by the net/proto entries when present in the evidence.)",
 		Note:      bmcNote + " The chain read error -> serve exit -> unregisterConnection -> RouteNodeDown is covered from RouteNodeDown on; in-flight request timeouts rest on the timer stub.",
